@@ -37,11 +37,8 @@ pub fn run(ctx: &Ctx) -> ! {
         }
     }
     // (3) bisync --dry-run on the whole bisync state graph
-    let bounds = if thorough {
-        vec![crate::e2::Bound { u0: vec!["f"], e: 5, m: 2, state_cap: 2_500_000 }, crate::e2::Bound { u0: vec!["f"], e: 3, m: 3, state_cap: 2_500_000 }, crate::e2::Bound { u0: vec!["f", "d/g"], e: 3, m: 2, state_cap: 2_500_000 }]
-    } else {
-        vec![crate::e2::Bound { u0: vec!["f"], e: 3, m: 2, state_cap: 400_000 }, crate::e2::Bound { u0: vec!["f", "d/g"], e: 2, m: 1, state_cap: 400_000 }]
-    };
+    let b = |u0: Vec<&'static str>, e: u8, m: u8| crate::e2::Bound { u0, e, m, state_cap: 2_500_000 };
+    let bounds = if thorough { vec![b(vec!["f"], 5, 2), b(vec!["f"], 3, 3), b(vec!["f", "d/g"], 3, 2), b(vec!["n.t", "n/t"], 3, 2)] } else { vec![b(vec!["f"], 3, 2), b(vec!["f", "d/g"], 2, 1), b(vec!["n.t", "n/t"], 2, 1)] };
     let (mut rep, bv) = crate::e2::explore(ctx, "C15", &bounds, 1);
     violations.extend(bv);
     rep.set("evaluations", evals.load(Ordering::Relaxed))
